@@ -1008,9 +1008,15 @@ def _create_socks_endpoint(reactor, control_protocol, socks_config=None):
     unix_ports = set([p for p in socks_ports if p.startswith('unix:')])
     tcp_ports = set(socks_ports) - unix_ports
 
+    # a complete SOCKSPort line (options included) which Tor already
+    # has is recognized by its first word, like a bare port is
+    wanted = socks_config
+    if socks_config in socks_lines:
+        wanted = socks_config.split()[0]
+
     socks_endpoint = None
     for p in list(unix_ports) + list(tcp_ports):  # prefer unix-ports
-        if socks_config and p != socks_config:
+        if wanted and p != wanted:
             continue
         try:
             socks_endpoint = _endpoint_from_socksport_line(reactor, p)
